@@ -240,6 +240,36 @@ def solution_snapshot(sol):
     }
 
 
+def guarded_any(fn, *a):
+    """(result, None) or (None, description of the exception)"""
+    try:
+        return fn(*a), None
+    except Exception as e:      # noqa: BLE001
+        return None, {"error": repr(e)[:400]}
+
+
+def fresh_call(module, func, arg, timeout=900):
+    """`oracles.<module>.<func>(arg)` evaluated in a FRESH interpreter (JSON in, JSON out): a reference that cannot have been
+    contaminated by anything that happened earlier in this process"""
+    import json
+    import subprocess
+    code = ("import sys, json; sys.path.insert(0, %r); import importlib; m = importlib.import_module('oracles.%s'); "
+            "print('@@' + json.dumps(getattr(m, %r)(json.load(sys.stdin)), default=str))" % (_H, module, func))
+    p = subprocess.run([sys.executable, "-c", code], input=json.dumps(arg, default=str), stdout=subprocess.PIPE,
+                       stderr=subprocess.PIPE, text=True, env=dict(os.environ), timeout=timeout)
+    line = next((l for l in p.stdout.split("\n") if l.startswith("@@")), None)
+    if line is None:
+        raise RuntimeError("fresh interpreter failed: " + p.stderr[-600:])
+    return json.loads(line[2:])
+
+
+def fresh_map(module, func, args, workers=8):
+    """fresh_call for several arguments, concurrently (each in its own interpreter)"""
+    from concurrent.futures import ThreadPoolExecutor
+    with ThreadPoolExecutor(max(1, min(workers, len(args)))) as ex:
+        return list(ex.map(lambda a: fresh_call(module, func, a), args))
+
+
 def replay_in_subprocess(module, case, timeout=900):
     """runs `oracles.<module>._replay_here(case)` in a FRESH interpreter and returns its result. State leaking between
     solver instances (class attributes, module globals, shared defaults) also contaminates reference runs made later in
